@@ -122,6 +122,7 @@ type World struct {
 	llJSON    [2][]byte
 	llWhich   int
 	llStolen  bool          // a direct RefreshLogList ran since the last change of the file
+	llSettled bool          // the driver let the proxy's machinery run to completion after the last change
 	llSince   time.Duration // fake time of the last change of the log-list file
 	llRetired string        // the log the second list retires ("" if it drops one instead)
 	partyMu   sync.Mutex
@@ -388,7 +389,7 @@ func (w *World) newCall() *call {
 	if t.Chance(1, 3) {
 		c.Kind = "getscts"
 	}
-	if w.proxy != nil && t.Chance(1, 3) {
+	if w.proxy != nil && t.Chance(1, 2) {
 		c.Kind = "proxy"
 	}
 	if t.Chance(1, 6) {
@@ -586,7 +587,15 @@ func (w *World) Options(s *kernel.Sim) []kernel.Option {
 		if len(w.calls) < w.maxCalls && w.active < w.conc {
 			opts = append(opts, kernel.Option{Key: "start call", Weight: 8, Apply: func() {
 				c := w.newCall()
-				s.Logf("%s %s pre=%v root=%d months=%d deadline=%v", c.Party, c.Kind, c.Pre, c.Root, c.Months, c.Deadline)
+				c.List = -1
+				if c.Kind == "proxy" {
+					c.List = w.proxyList(parked)
+					s.Probe(fmt.Sprintf("proxy.call.list=%d", c.List))
+					if c.List == 1 && w.llRetired != "" {
+						s.Probe("proxy.call.retiring-list-in-force")
+					}
+				}
+				s.Logf("%s %s pre=%v root=%d months=%d deadline=%v list=%d", c.Party, c.Kind, c.Pre, c.Root, c.Months, c.Deadline, c.List)
 				w.launch(c)
 			}})
 		}
@@ -762,6 +771,9 @@ func (w *World) judge(c *call) {
 			return
 		case !l.Roots[c.Root] && c.Kind == "dist" && w.knownThroughout(u, c):
 			s.Violate("contacted-incompatible", "roots", "%s: log %s does not accept root %d, the distributor knew its roots, and it was sent the chain", c.Party, u, c.Root)
+			return
+		case c.Kind == "proxy" && c.List == 1 && !c.ListMoved && u == w.llRetired:
+			s.Violate("contacted-incompatible", "state:retired-by-refreshed-list", "%s: the log list in force since %v retires %s, the proxy had every opportunity to pick it up, and the log was still sent the chain", c.Party, w.llSince, u)
 			return
 		case c.Zero[u]:
 			s.Violate("contacted-incompatible", "zero-weight", "%s: log %s has weight 0 in every group and was sent the chain", c.Party, u)
